@@ -397,7 +397,7 @@ for fn, typ in ((Unit.parse, Unit), (Quantity.parse, Quantity)):
         print(fn.__qualname__, 'raised', type(e).__name__, str(e)[:100])
         bad.append(type(e).__name__)
 if bad:
-    print('REPRODUCED ({why}):', bad); sys.exit(1)
+    print('REPRODUCED (' + {why!r} + '):', bad); sys.exit(1)
 sys.exit(0)
 """
 
